@@ -158,8 +158,9 @@ def probes(w: World, kmax: int) -> t.List[t.Tuple[int, bool, bool]]:
     return res
 
 
-def step(w: World, ev: Ev, cuts: bool) -> t.Tuple[t.Optional[World], t.Optional[t.Tuple[str, str]]]:
-    """-> (successor or None if the call is not accepted (premise), violation or None)."""
+def step(w: World, ev: Ev, cuts: bool, lag: int = 0) -> t.Tuple[t.Optional[World], t.Optional[t.Tuple[str, str]]]:
+    """-> (successor or None if the call is not accepted (premise), violation or None).
+    lag > 0: the application drains at most ``lag`` octets per send (the rest stays queued in the session)."""
     w2 = copy.deepcopy(w)
     v: t.Optional[t.Tuple[str, str]] = None
     if ev[0] == "c":
@@ -172,10 +173,10 @@ def step(w: World, ev: Ev, cuts: bool) -> t.Tuple[t.Optional[World], t.Optional[
             if w2.c.data_to_send():
                 return w2, (f"refused-call-left-bytes:client:{name}", f"refused client call {name} queued bytes")
             return w2, ("__refused__", "")
-        out = w2.c.data_to_send()
+        out = w2.c.data_to_send(lag) if lag else w2.c.data_to_send()
         if name != "unbind":
             w2.issued += 1
-        w2.c2s += frags(out, cuts)
+        w2.c2s += frags(out, cuts) if not lag else ([out] if out else [])
         w2.qc2s.append((name, r if name != "unbind" else 0))
     elif ev[0] == "s":
         name, i = ev[1], ev[2]
@@ -185,8 +186,8 @@ def step(w: World, ev: Ev, cuts: bool) -> t.Tuple[t.Optional[World], t.Optional[
             if w2.s.data_to_send():
                 return w2, (f"refused-call-left-bytes:server:{name}", f"refused server call {name} queued bytes")
             return w2, ("__refused__", "")
-        out = w2.s.data_to_send()
-        w2.s2c += frags(out, cuts)
+        out = w2.s.data_to_send(lag) if lag else w2.s.data_to_send()
+        w2.s2c += frags(out, cuts) if not lag else ([out] if out else [])
         w2.qs2c.append((name, i))
         if name == "bind_sasl":
             w2.sasl += 1
@@ -421,7 +422,10 @@ def long_scenarios() -> t.Iterator[t.Tuple[str, t.List[t.List[t.Any]]]]:
 
 
 def run_long(ctx: evid.Ctx) -> None:
-    for name, hist in long_scenarios():
+    scen = list(long_scenarios())
+    scen += [(name + "-lag700", hist) for name, hist in scen if name.startswith("pipeline-30") or name == "pipeline-12-next"]
+    for name, hist in scen:
+        lag = 700 if name.endswith("-lag700") else 0
         w = World()
         done: t.List[t.List[t.Any]] = []
         ctx.add("long_run_histories")
@@ -432,6 +436,13 @@ def run_long(ctx: evid.Ctx) -> None:
             evs: t.List[Ev] = []
             if raw[0] == "flush":
                 pipe = raw[1]
+                if lag:  # the application now drains what is still queued, 700 octets at a time
+                    src = w.c if pipe == "c2s" else w.s
+                    while True:
+                        piece = src.data_to_send(lag)
+                        if not piece:
+                            break
+                        (w.c2s if pipe == "c2s" else w.s2c).append(piece)
                 # deliver until that pipe is empty, one event at a time (the pattern is chosen per event below)
                 guard = 0
                 while (w.c2s if pipe == "c2s" else w.s2c) and guard < 100000:
@@ -439,11 +450,11 @@ def run_long(ctx: evid.Ctx) -> None:
                     frs = w.c2s if pipe == "c2s" else w.s2c
                     how = "two" if ("two" in name and len(frs) > 2) else "all" if ("all" in name and len(frs) > 1) else "next"
                     ev = ("d", pipe, how)
-                    w2, v = step(w, ev, True)
+                    w2, v = step(w, ev, True, lag)
                     done.append(list(ev))
                     ctx.add("transitions")
                     ctx.add("long_run_steps")
-                    if v is None and not w2.c2s and not w2.s2c:
+                    if v is None and not w2.c2s and not w2.s2c and not lag:
                         v = quiescent_check(w2, 1)
                     if v is not None and v[0] != "__refused__":
                         ctx.violation(v[0], f"[long run {name}, step {len(done)}] {v[1]}", {"K": 10**6, "cuts": True, "history": list(done)})
@@ -460,7 +471,7 @@ def run_long(ctx: evid.Ctx) -> None:
                     ev = ("d", ev[1], "next")
                 if ev[2] == "all" and len(frs) <= 1:
                     ev = ("d", ev[1], "next")
-            w2, v = step(w, ev, True)
+            w2, v = step(w, ev, True, lag)
             done.append(list(ev))
             ctx.add("transitions")
             ctx.add("long_run_steps")
@@ -470,13 +481,15 @@ def run_long(ctx: evid.Ctx) -> None:
                 ctx.violation(f"long-run-call-refused:{ev[0]}:{ev[1]}", f"[long run {name}, step {len(done)}] {ev} was refused although the conversation allows it (client {w.c.state.name}, server {w.s.state.name})", {"K": 10**6, "cuts": True, "history": list(done)})
                 bad = True
                 break
-            if v is None and not w2.c2s and not w2.s2c:
+            if v is None and not w2.c2s and not w2.s2c and not lag:
                 v = quiescent_check(w2, 1)
             if v is not None:
-                ctx.violation(v[0], f"[long run {name}, step {len(done)}] {v[1]}", {"K": 10**6, "cuts": True, "history": list(done)})
+                ctx.violation(v[0], f"[long run {name}, step {len(done)}] {v[1]}", {"K": 10**6, "cuts": True, "history": list(done), "lag": lag})
                 bad = True
                 break
             w = w2
+        if lag and not bad and (w.qc2s or w.qs2c):
+            ctx.violation("message-lost", f"[long run {name}] conversation over, yet {len(w.qc2s) + len(w.qs2c)} sent messages were never received", {"K": 10**6, "cuts": True, "history": list(done), "lag": lag})
 
 
 def run(ctx: evid.Ctx) -> None:
